@@ -649,7 +649,12 @@ class TeX(object):
         ParameterCommand.disable()
 
         if charsubs is None:
-            charsubs = getattr(self.ownerDocument, 'charsubs', [])
+            # Quotes and dashes are only ligatures in text: no character
+            # substitutions in the arguments of math mode macros
+            if self.ownerDocument.context.isMathMode:
+                charsubs = []
+            else:
+                charsubs = getattr(self.ownerDocument, 'charsubs', [])
 
         if type in ['Dimen','Length','Dimension']:
             n = self.readDimen()
